@@ -56,15 +56,24 @@ def divRne (a b : Nat) : Nat :=
   let r := a % b
   if 2 * r < b then q else if 2 * r > b then q + 1 else if q % 2 == 0 then q else q + 1
 
+/-- `⌊log2 (num/den)⌋` for `num, den > 0` -/
+def expOf (num den : Nat) : Int :=
+  let e0 : Int := (Nat.log2 num : Int) - (Nat.log2 den : Int)
+  -- num/den ≥ 2^e0 ?  (num · 2^(-e0) ≥ den  resp.  num ≥ den · 2^e0)
+  let ge : Bool := if e0 ≥ 0 then decide (num ≥ den * 2 ^ e0.toNat) else decide (num * 2 ^ (-e0).toNat ≥ den)
+  if ge then e0 else e0 - 1
+
+/-- bit pattern of the normal number `m · 2^(e-23)`, `2²³ ≤ m ≤ 2²⁴` (a mantissa that rounded up to `2²⁴` is
+    renormalised; `+inf` on exponent overflow) -/
+def encodeNormal (m : Nat) (e : Int) : Nat :=
+  let (m, e) := if m == 2 ^ 24 then (2 ^ 23, e + 1) else (m, e)
+  if e > 127 then 0x7F800000 else (e + 127).toNat * 2 ^ 23 + (m - 2 ^ 23)
+
 /-- bit pattern of `fl32(num / den)` for `num, den > 0` (`+inf` on overflow, subnormals and
     underflow to 0 handled) -/
 def ofRat (num den : Nat) : Nat :=
   if num == 0 || den == 0 then 0 else
-  -- e = ⌊log2 (num/den)⌋
-  let e0 : Int := (Nat.log2 num : Int) - (Nat.log2 den : Int)
-  -- num/den ≥ 2^e0 ?  (num · 2^(-e0) ≥ den  resp.  num ≥ den · 2^e0)
-  let ge : Bool := if e0 ≥ 0 then decide (num ≥ den * 2 ^ e0.toNat) else decide (num * 2 ^ (-e0).toNat ≥ den)
-  let e : Int := if ge then e0 else e0 - 1
+  let e := expOf num den
   if e < -126 then
     -- subnormal range: mantissa in units of 2⁻¹⁴⁹ (a carry into 2²³ is the smallest normal number)
     divRne (num * 2 ^ 149) den
@@ -72,8 +81,7 @@ def ofRat (num den : Nat) : Nat :=
     -- M = rne(num/den · 2^(23-e)) ∈ [2²³, 2²⁴]
     let sh : Int := 23 - e
     let m := if sh ≥ 0 then divRne (num * 2 ^ sh.toNat) den else divRne num (den * 2 ^ (-sh).toNat)
-    let (m, e) := if m == 2 ^ 24 then (2 ^ 23, e + 1) else (m, e)
-    if e > 127 then 0x7F800000 else (e + 127).toNat * 2 ^ 23 + (m - 2 ^ 23)
+    encodeNormal m e
 
 /-- `n as f32` (usize → f32, round to nearest even) -/
 def ofNat (n : Nat) : Nat := ofRat n 1
